@@ -254,7 +254,8 @@ def run(R):
             R.ob("C06b-pixels-no-dc", tag + "|dc", not dc, "%s touches a pin (data/command must stay high during pixel data): %s" % (mname, dc[:2]))
             R.ob("C06b-only-spi-writes", tag + "|events", not other, "%s performs other hardware operations: %s" % (mname, other))
             writes = [s for s in syms if s.cls == "SPI_WRITE"]
-            R.floor(tag + " SPI write sites", len(set(TR.where(s.ev) for s in writes)), 1 if mname == "send_pixels" else 2)
+            # distinct executed write calls (not source lines: a shared helper has one line for all of them)
+            R.floor(tag + " SPI write sites", len(set(getattr(s.ev.ret, "name", id(s.ev)) for s in writes)), 1 if mname == "send_pixels" else 2)
             for s in writes:
                 a1 = s.ev.args[1]
                 meta = a1.meta.poly() if isinstance(a1, Ptr) and a1.meta is not None else None
